@@ -11,6 +11,21 @@ import re
 
 
 PROPS = {
+    "C14": {
+        "coq_targets": ["theories/Lang/ConstProofs.vo"],
+        "harness": ["c14"],
+        "tables": True,
+        "disagreement_is_violation": True,
+        "axioms": [],
+        "trusted_base": COMMON_TB + [
+            "modelled, not verified: rusty_linter/src/core/const_value_resolver.rs (eval_const) and converter/statement/const_rules.rs (new_const: conversion to the constant's suffix type) as Lang/Const.v; run-time evaluation is Lang/Sem.eval over Val/Arith2 (tied to the VM by the C01 correspondence, value level included)",
+            "harness/src/c14.rs: generator of constant chains, reading the literal that replaces a use out of the Debug text of the checked program, comparison of PRINT outputs (bare / suffixed / inside SUB / defined in SUB / inlined expression)",
+            "NOT modelled: the first evaluation pass (pre_linter/constant_map.rs) separately from the second - both must agree for the program to be accepted with the observed literal",
+        ],
+        "assumptions": [
+            "the folder's Type mismatch answers (AND / OR on a non-INTEGER constant, reference with the wrong suffix) are outside the statement; observed and counted, not judged",
+        ],
+    },
     "C02": {
         "coq_targets": ["theories/VM/Corr.vo", "theories/Lang/Rewrites.vo"],
         "harness": ["c02"],
